@@ -384,6 +384,7 @@ func doors(c *vf.Ctx, x *chain.Explorer, w *chain.World, path []string) {
 
 	// ---------- door 4: parents created earlier in the same block ----------
 	ephemeralDoor(c, x, w, path)
+	v1InBlockDoor(c, x, w, path)
 	// ---------- door 3: v1 parents supplied through the block supplement ----------
 	if h < w.Net.HardforkV2.RequireHeight {
 		door3 := func(kind string, ptr any, build func() (chain.Use, bool)) {
